@@ -5,7 +5,7 @@ set -u
 cd /verif
 export AGV_EVIDENCE_DIR=/verif/build/seed-evidence
 SEEDS=${@:-$(ls seeded)}
-CHECKS=$(python3 -c "import json; print(' '.join(c['property_id'] for c in json.load(open('MANIFEST.json'))['checks']))")
+CHECKS=$(seq -f "C%02g" 1 20)
 OUT=build/seed_matrix.tsv
 for S in $SEEDS; do
   git -C /repo status --short | grep -q . && { echo "/repo not clean"; exit 2; }
